@@ -257,6 +257,7 @@ class Signal( NamedObject, Connectable ):
     if isinstance( idx, int ):
       start, stop = idx, idx + 1
     elif isinstance( idx, slice ):
+      assert idx.step is None, f"The slice {idx} is invalid: a signal slice cannot have a step"
       start, stop = idx.start, idx.stop
     else: assert False, f"The slice {idx} is invalid"
 
